@@ -245,6 +245,9 @@ func statusDeviation(s *Script, e *Expect, o *Obs) string {
 	if o.Final.EOF {
 		return fmt.Sprintf("handler failed with code %d but client stream ended with io.EOF (success)", e.Code)
 	}
+	if s.Final.anyFailure() {
+		return "" // a failure is all that can be demanded
+	}
 	if o.Final.Code != uint32(e.Code) {
 		return fmt.Sprintf("code: handler returned %d, client sees %d (%s)", e.Code, o.Final.Code, o.Final.Raw)
 	}
